@@ -53,10 +53,17 @@ type Violation struct {
 	History *History        `json:"history"`
 	HHist   json.RawMessage `json:"handle_history,omitempty"`
 	FCase   *frameCaseJSON  `json:"frame_case,omitempty"`
+	DCase   *dcaseRef       `json:"damage_case,omitempty"`
 	Profile string          `json:"profile"`
 	Context []string        `json:"context"` // the trace lines of that history up to the rejected one
 	Note    string          `json:"note"`
 	hid     int
+}
+
+type dcaseRef struct {
+	ID   int    `json:"id"`
+	Tier string `json:"tier"`
+	Seed int64  `json:"seed"`
 }
 
 type SeqRun struct {
@@ -68,6 +75,7 @@ type SeqRun struct {
 	hists    map[int]*History
 	hhists   map[int][]byte
 	fcases   map[int]frameCase
+	dcases   map[int]bool
 	shards   []string
 	Events   int
 	Counts   map[string]int
@@ -270,7 +278,10 @@ func (r *SeqRun) validateShard(path string) {
 		v := Violation{Prop: r.P.Prop, Line: bad, Event: json.RawMessage(lines[bad-1]), History: r.hists[eh.Hid],
 			HHist: r.hhists[eh.Hid], Profile: r.P.Prop, Context: ctx}
 		v.hid = eh.Hid
-		if fc, ok := r.fcases[eh.Hid]; ok && r.P.Module == "TraceFrames.tla" {
+		if r.dcases[eh.Hid] && r.P.Prop == "C14" {
+			v.DCase = &dcaseRef{ID: eh.Hid, Tier: r.Tier, Seed: r.Seed}
+			v.History, v.HHist = nil, nil
+		} else if fc, ok := r.fcases[eh.Hid]; ok && r.P.Module == "TraceFrames.tla" {
 			v.FCase = fc.toJSON()
 			v.History, v.HHist = nil, nil
 		}
@@ -286,7 +297,7 @@ func (r *SeqRun) validateShard(path string) {
 
 // confirm re-executes the history alone; only a reproduced rejection is a violation.
 func (r *SeqRun) confirm(v *Violation) {
-	if v.History == nil && v.HHist == nil && v.FCase == nil {
+	if v.History == nil && v.HHist == nil && v.FCase == nil && v.DCase == nil {
 		r.infra("rejected event without history: %s", truncate(string(v.Event), 500))
 		return
 	}
@@ -319,6 +330,16 @@ func truncate(s string, n int) string {
 func (r *SeqRun) replayAny(v *Violation) (bool, int, string) {
 	if v.History != nil {
 		return r.replayHistory(v.History)
+	}
+	if v.DCase != nil {
+		dir, _ := os.MkdirTemp(r.Scratch, "replay")
+		defer os.RemoveAll(dir)
+		path, err := replayC14(r, v.DCase.ID, v.DCase.Tier, v.DCase.Seed, dir)
+		if err != nil {
+			r.infra("replay: %v", err)
+			return true, 0, ""
+		}
+		return r.judgeReplay(path)
 	}
 	if v.FCase != nil {
 		dir, _ := os.MkdirTemp(r.Scratch, "replay")
